@@ -115,6 +115,35 @@ def ensure_shims():
     return d
 
 
+def ensure_helper(kind):
+    """Builds libdbhelper.so against the given flavour of /repo's build."""
+    bdir = build_dir(kind)
+    src = os.path.join(VERIF, "sim", "helper", "dbhelper.cxx")
+    out = os.path.join(bdir, "lib", "libdbhelper.so")
+    lock = open(os.path.join(BUILD_ROOT, ".lock-helper-" + kind + _suffix()), "w")
+    fcntl.flock(lock, fcntl.LOCK_EX)
+    try:
+        deps = [src, libdb(kind)] + [os.path.join(REPO, "src", "interrogatedb", f) for f in os.listdir(os.path.join(REPO, "src", "interrogatedb")) if f.endswith((".h", ".I"))]
+        if _newer(deps, out):
+            flags = ["-std=gnu++11", "-fPIC", "-shared", "-O1", "-g", "-fno-exceptions", "-fno-rtti", "-Wno-error", "-D%s=1" % GUARD, "-DNDEBUG"]
+            if kind == "san":
+                flags += SAN_FLAGS.split()
+            inc = ["-I" + os.path.join(bdir, "cmake/src/interrogatedb"), "-I" + os.path.join(REPO, "src/interrogatedb"),
+                   "-I" + os.path.join(bdir, "cmake/src/dtoolutil"), "-I" + os.path.join(REPO, "src/dtoolutil"),
+                   "-I" + os.path.join(bdir, "cmake/src/dtoolbase"), "-I" + os.path.join(bdir, "include"), "-I" + os.path.join(REPO, "src/dtoolbase")]
+            tmp = out + ".tmp%d" % os.getpid()
+            cmd = ["g++"] + flags + inc + ["-o", tmp, src, "-L" + os.path.join(bdir, "lib"), "-linterrogatedb", "-Wl,-rpath," + os.path.join(bdir, "lib")]
+            r = subprocess.run(cmd, stdout=subprocess.PIPE, stderr=subprocess.STDOUT)
+            if r.returncode != 0:
+                sys.stderr.write("build: dbhelper (%s) failed:\n%s\n" % (kind, r.stdout.decode()[-3000:]))
+                raise SystemExit(3)
+            os.replace(tmp, out)
+    finally:
+        fcntl.flock(lock, fcntl.LOCK_UN)
+        lock.close()
+    return out
+
+
 def shim(name):
     return os.path.join(BUILD_ROOT, "shim", "lib%s.so" % name)
 
